@@ -224,7 +224,7 @@ def tie_audit(tie, res, rest_ok):
         res['translator'] = {'definitions': len(translate.SPEC), 'errors': errors}
         b = subprocess.run(['lake', 'build', 'Sgz.Generated.Source', 'Sgz.Model.Loader', 'Sgz.Model.Reader', 'Sgz.Model.Crop',
                             'Sgz.Model.Reblock', 'Sgz.Model.Writer', 'Sgz.Model.Window', 'Sgz.Model.Derived', 'Sgz.Model.Header', 'Sgz.Model.Container',
-                            'Sgz.Model.HeaderReads', 'Sgz.Model.Version', 'Sgz.Model.Emul', 'Sgz.Model.Irregular', 'Sgz.Model.Xarray', 'Sgz.Model.SegyRaw'], cwd=LEAN_DIR,
+                            'Sgz.Model.HeaderReads', 'Sgz.Model.Version', 'Sgz.Model.Emul', 'Sgz.Model.Irregular', 'Sgz.Model.Xarray', 'Sgz.Model.SegyRaw', 'Sgz.Model.Export', 'Sgz.Model.IO'], cwd=LEAN_DIR,
                            stdout=subprocess.PIPE, stderr=subprocess.STDOUT, text=True, timeout=1800)
         # the translator is validated, not just trusted: every generated definition is evaluated by Lean at random parameter
         # values and compared with Python's own evaluation of the source expression it was derived from
